@@ -391,7 +391,7 @@ def r4_normalisation(R) -> None:
                               f'(value read: `{text(v)[:80]}`)')
             else:
                 R.violation(q, f'normalise-missing:{pat}', f'no normalisation pass `re.sub({pat!r}, {rep!r}, template)` ({why}); passes applied to the '
-                            f'template: {[p_ for p_, _r in consts]}', where=f.fi.where)
+                            f'template: {[p_ for p_, _r in consts]}', where=f.fi.where, mismatch=True)
         if len(order) == 3:
             R.check(order[r'\s+'] < min(order[r'\(\s+'], order[r'\s+\)']), q, 'normalise-order',
                     'whitespace is collapsed before the bracket passes', 'the bracket passes run before the whitespace collapse', where=f.where(n))
